@@ -30,6 +30,10 @@ def type_of_value(v):
         return ("ituple",)
     if isinstance(v, VOpaqueZ):
         return v.t
+    if isinstance(v, VSeq):
+        return ("seq", v.et)
+    if isinstance(v, VTuple):
+        return ("tup", [type_of_value(x) for x in v.items])
     raise Unsupported("no storable type for %r" % (v,))
 
 
@@ -213,6 +217,12 @@ def getitem(eng, c, k, state):
         ok = z3.And(k.z >= 0, k.z < z3.Length(c.z))
         yield from eng.alternatives(state, [(ok, VStr(z3.SubString(c.z, k.z, 1))), (z3.Not(ok), Exc("IndexError"))])
         return
+    if isinstance(c, VSeq) and isinstance(k, VInt):
+        n = z3.Length(c.z)
+        idx = z3.If(k.z < 0, n + k.z, k.z)
+        ok = z3.And(idx >= 0, idx < n)
+        yield from eng.alternatives(state, [(ok, wrap(c.z[idx], c.et)), (z3.Not(ok), Exc("IndexError"))])
+        return
     if isinstance(c, VOpaque):
         yield VOpaque("item"), state
         return
@@ -362,6 +372,8 @@ def iter_space(eng, v, state):
         return Space("keys", kt=v.kt, dom=v.dom, fn=lambda k: wrap(k, v.kt))
     if isinstance(v, VITup):
         return Space("index", n=v.len, fn=lambda i: VInt(z3.Select(v.arr, i)))
+    if isinstance(v, VSeq):
+        return Space("index", n=z3.Length(v.z), fn=lambda i: wrap(v.z[i], v.et), seq=v)
     if isinstance(v, VIter):
         if v.kind == "zip":
             subs = [iter_space(eng, x, state) for x in v.src]
@@ -643,6 +655,9 @@ def b_list(eng, args, kwargs, state, node):
     if not args:
         yield VLoc(st.new_loc(Container("list", items=[]))), st
         return
+    if isinstance(args[0], VSeq):
+        yield args[0], state
+        return
     sp, bound, cond, vals = consume_gen(eng, args[0], state)
     if sp.kind != "concrete":
         raise Unsupported("list() of a symbolic sequence")
@@ -713,6 +728,8 @@ def b_len(eng, args, kwargs, state, node):
         yield VInt(z3.Length(a.z)), state
     elif isinstance(a, VLoc) and cont(state, a).kind == "list":
         yield VInt(len(cont(state, a).items)), state
+    elif isinstance(a, VSeq):
+        yield VInt(z3.Length(a.z)), state
     else:
         raise Unsupported("len of %r" % (a,))
 
@@ -1111,6 +1128,11 @@ def binop_extra(eng, op, a, b, state):
         if isinstance(a, VLoc) and isinstance(b, VLoc) and cont(state, a).kind == "list" and cont(state, b).kind == "list":
             st = state.fork()
             return iter([(VLoc(st.new_loc(Container("list", items=cont(state, a).items + cont(state, b).items))), st)])
+    if op == "Add" and (isinstance(a, VSeq) or isinstance(b, VSeq)):
+        seq = a if isinstance(a, VSeq) else b
+        t = ("seq", seq.et)
+        fa, fb = freeze(eng, a, state), freeze(eng, b, state)
+        return iter([(VSeq(z3.Concat(unwrap(fa, t), unwrap(fb, t)), seq.et), state)])
     if op == "Mult" and isinstance(a, VLoc) and isinstance(b, VInt) and cont(state, a).kind == "list":
         z = simp(b.z)
         if z3.is_int_value(z):
